@@ -205,6 +205,19 @@ theorem concurrent_signers (signers : Nat → Signer) (p0 : J) (sigs0 : List (PS
     · exact h
     · exact absurd hj (hx j)
 
+/-- **not even transiently**: no single step of a signer changes what any index other than its own key id holds, nor the payload — at every intermediate
+state of every schedule the other entries are there, unaltered (what the harness observes with a logging dict subclass in place of the map) -/
+theorem inPlace_step_frame (sg : Signer) (sh : Envelope) (st : SLocal) (x : PStr) (hx : x ≠ sg.key) :
+    dictGet x (stepInPlace sg sh st).1.sigs = dictGet x sh.sigs ∧ (stepInPlace sg sh st).1.signed = sh.signed := by
+  unfold stepInPlace
+  split
+  · exact ⟨rfl, rfl⟩
+  · exact ⟨rfl, rfl⟩
+  · split
+    · exact ⟨dictGet_dictSet_other _ _ _ hx _, rfl⟩
+    · exact ⟨rfl, rfl⟩
+  · exact ⟨rfl, rfl⟩
+
 /-- sequential signing by the signers numbered in `l`, one after the other -/
 def signSeq (signers : Nat → Signer) (p0 : J) (sigs0 : List (PStr × J)) (l : List Nat) : List (PStr × J) :=
   l.foldl (fun e i => dictSet e (signers i).key ((signers i).entryOf p0)) sigs0
